@@ -52,7 +52,7 @@ pub fn prop() -> Prop<Hist> {
             "a mismatch after reopen is given the signature tombstone-dropped if the key is absent in the model, the store returns exactly what an independent scan of the surviving data files yields, and the file holding the key's last tombstone no longer exists (the defect D2, repaired in /repo 67f21c7; the signature is no longer tolerated)",
         ],
         needs_shim: false,
-        budget: |t| t.pick(32000, 500000),
+        budget: |t| t.pick(64000, 500000),
         shards: |_| 16,
         strategy,
         exec,
